@@ -95,7 +95,8 @@ def main():
                    source_commits=[], add_only=True),
         engines=[dict(name="tlc+harness", path="/verif/tools/check.py", serves_properties=sorted(set(CHECKS) - set(NOT_YET)),
                       kind_free_text="TLA+ specifications in /verif/spec checked and enumerated by TLC; C++ conformance harnesses in /verif/harness "
-                                     "replay TLC-generated behaviours on the code (pipeline G) and record executions that TLC validates (pipeline V)")],
+                                     "replay TLC-generated behaviours on the code (pipeline G) and record executions that TLC validates (pipeline V); "
+                                     "Apalache discharges inductive invariants of two data-free abstract machines (DrainBounds, CopyBounds) that the TLC-explored machines refine")],
         checks=checks,
         notes="See DESIGN.md. known_findings.txt lists genuine defects (fixed ones as 'fixed:' entries, which suppress nothing).",
         not_applicable=[dict(property_id=p, reason=r) for p, r in sorted(NOT_YET.items())])
